@@ -153,6 +153,7 @@ class Gen:
         self.out = []
         self.ntemp = 0
         self.kernels = []     # (coq name, description)
+        self.frag_names = []  # kernels cut out of closures / loop bodies
 
     # ------------------------------------------------------------ helpers
     def fresh(self):
@@ -904,6 +905,7 @@ class Gen:
         that are inputs of the kernel (name -> type in hints, default i32)."""
         name = self.prefix + name[2:]
         self.current = name
+        self.frag_names.append(name)
         c = Ctx(self, {}, free_ok=True, hints=hints or {})
         c.gen_result = False
         c.declared = set()
@@ -1121,6 +1123,9 @@ def generate(release=False):
         raise TranslateError("hint_bit_unpack: the trailing-zero loop is no longer `for i in index..<bound>`")
     g.fragment("k_hbu_tail_bound", "conversion.rs: fn hint_bit_unpack, upper bound of the trailing-zero loop", fors[1][2][2], hints=dict(hb_hints))
     g.out.append("Definition %s : list string := [%s].\n" % ("leak_kernel_names" if release else "kernel_names", "; ".join('"%s"' % k for k, _ in g.kernels)))
+    if not release:
+        g.out.append("(* the kernels cut out of closures and loop bodies, for proofs that unfold them (Proofs/KernelAgree.v) *)\n"
+                     "Create HintDb kfragdb.\n#[export] Hint Unfold %s : kfragdb.\n" % " ".join(g.frag_names))
     return "\n".join(g.out)
 
 
